@@ -452,6 +452,16 @@ func c16Run(t *testing.T, c *evid.Collector) {
 			svc = append(svc, lreq{Method: "PUT", Bucket: "bk0", Key: key, Body: []byte("object " + key), Family: "putObject"}, lreq{Method: "GET", Bucket: "bk0", Key: key, Family: "getObject"},
 				lreq{Method: "HEAD", Bucket: "bk0", Key: key, Family: "headObject"}, lreq{Method: "GET", Bucket: "bk1", Key: key, Family: "getObject"}, lreq{Method: "DELETE", Bucket: "bk0", Key: key, Family: "deleteObject"})
 		}
+		// the longest bucket name there is (63 bytes, the longest DNS label)
+		l63 := strings.Repeat("b", 31) + "-" + strings.Repeat("k", 31)
+		for _, m := range c16Modes {
+			cs := m
+			cs.Setup = []prog.Op{{K: "mkbucket", B: l63}, {K: "put", B: l63, Key: "obj", Body: []byte("in the long bucket")}}
+			cs.Requests = []lreq{{Method: "GET", Bucket: l63, Key: "obj", Family: "getObject"}, {Method: "PUT", Bucket: l63, Key: "some-key", Body: []byte("n"), Family: "putObject"},
+				{Method: "GET", Bucket: l63, Family: "listBucket"}, {Method: "HEAD", Bucket: l63, Key: "some-key", Family: "headObject"}, {Method: "DELETE", Bucket: l63, Key: "obj", Family: "deleteObject"}}
+			ds, sent := c16Exec(cs)
+			record("twin", cs, ds, sent, "fixed-63-byte-bucket")
+		}
 		for _, m := range c16Modes {
 			cs := m
 			cs.Setup = setup
